@@ -86,9 +86,12 @@ func (bb *JsonBuildObjectBuilderBuilder) Prop(key string, value Exp) *JsonBuildO
 }
 
 func (bb *JsonBuildObjectBuilderBuilder) End() JsonBuildObjectBuilder {
+	// Copy the entries, so later calls on the batch builder cannot change the returned (immutable) value.
+	props := make(immutableSliceMap[string, Exp], len(bb.builder))
+	copy(props, bb.builder)
 	return JsonBuildObjectBuilder{
 		isJsonB: bb.isJsonB,
-		props:   bb.builder,
+		props:   props,
 	}
 }
 
